@@ -3,6 +3,7 @@ CONSTANTS Agents = {"a1"}
  NSteps = 2
  AllowCrash = TRUE
  FixStatus = TRUE
+ BindFailUnlinks = FALSE
  ExclusiveBind = TRUE
 INVARIANTS C08_CutShort C08_NoError
 CHECK_DEADLOCK FALSE
